@@ -84,8 +84,17 @@ def apply_edit(cfg, ed):
             return None
         c[s]['np'] -= 1
         return c, {s}, 'np'
+    if op in ('bad1', 'bad2'):
+        # an edit that makes the section unloadable (1: a FileStream in a missing directory, 2: a hook that cannot be
+        # imported); applied again it takes the edit back
+        c[s]['bad'] = 0 if c[s].get('bad') else int(op[3])
+        return c, {s}, 'bad' if c[s]['bad'] else 'unbad'
     c[s][op] = 1 - c[s][op]
     return c, {s}, op
+
+
+def isbad(cfg):
+    return any(cfg[s] is not None and cfg[s].get('bad') for s in SLOTS)
 
 
 def render(path, cfg):
@@ -99,6 +108,11 @@ def render(path, cfg):
             # a stream given by class name (the worker's stdout is captured into a file next to the ini file)
             opts['stdout_stream.class'] = 'FileStream'
             opts['stdout_stream.filename'] = os.path.join(os.path.dirname(path), s + '.log')
+        if w.get('bad') == 1:
+            opts['stderr_stream.class'] = 'FileStream'
+            opts['stderr_stream.filename'] = os.path.join(os.path.dirname(path), 'missing-dir', s + '.err')
+        elif w.get('bad') == 2:
+            opts['hooks.before_start'] = 'no_such_module_vt.hook'
         ws.append((s, opts))
         if w['envn']:
             envs.append((s, {'SLOT': 'x-' + s}))
@@ -123,6 +137,11 @@ def shards(tier):
     # compound edits: all sequences of length <= 2 (quick) / <= 3 (thorough) over the larger alphabet
     for i in range(len(EC)):
         out.append(('cpre', i))
+    # failed reloads: an edit that cannot be loaded, then (after 0..1 further edits) taken back
+    for v in ('bad1', 'bad2'):
+        for s_ in SLOTS:
+            for k in range(0, len(E), 6):
+                out.append(('bad', v, s_, k))
     return out
 
 
@@ -147,6 +166,18 @@ def sequences(shard, tier):
                         yield [first, e2, e3]
         if '&' in first[0]:
             yield [first]
+        return
+    if shard[0] == 'bad':
+        _, v, s_, k = shard
+        mids = [None, ('noop', None), ('np+', s_), ('cmd', s_), ('env', None)] if tier == 'quick' else [None] + E
+        firsts = ([None] if k == 0 else []) + E[k:k + 6]
+        for e1 in firsts:
+            for mid in mids:
+                seq = ([e1] if e1 else []) + [(v, s_)] + ([mid] if mid else []) + [(v, s_)]
+                yield seq
+                if tier != 'quick' and mid is None:
+                    for e3 in E:
+                        yield seq + [e3]
         return
     _, i, j = shard
     for rest in itertools.product(E, repeat=D - 2):
@@ -226,6 +257,32 @@ def run_seq(r, seq, judge_all=False):
             w.run(until=lambda x: x.slot() is None and not x.stopping_processes() and not x.loop.has_ready(), horizon=6)
             w.settle(1)
             last = step == len(seq) - 1
+            if isbad(new) or isbad(cfg):
+                # the file cannot be loaded (the reload is expected to fail), or the previous reload failed: only the
+                # state after the file is loadable again is judged, against a fresh start
+                if not isbad(new) and (last or judge_all):
+                    desc = lambda: 'after edits %s (a failed reload, then the edit taken back)' % json.dumps(seq)   # noqa: E731
+                    r.check('C12.accepted', rq.ok(), lambda: desc() + ': reloadconfig answered %r' % rq.reply(),
+                            'arbiter.reload_from_config/after-failed-reload', case, fp='refused-unbad')
+                    obs, ref = observe(w, scratch.dir), fresh(new)
+                    diff = _diff(obs, ref) if obs != ref else None
+                    r.check('C12.same_as_fresh', obs == ref,
+                            lambda: desc() + ': daemon differs from a fresh start on the same file: %s' % diff,
+                            'arbiter.reload_from_config/after-failed-reload', case,
+                            fp='fresh-afterbad-' + (_diffkind(diff) if diff else ''))
+                    r.outcomes.add(digest(['>'.join(kinds), obs == ref]))
+                    r.nontrivial_count += 1
+                elif isbad(new) and kind == 'bad' and not isbad(cfg):
+                    after = {s: pids_of(w, s) for s in SLOTS}
+                    for s in SLOTS:
+                        if s in touched or new[s] is None:
+                            continue
+                        r.check('C12.untouched_keep_pids', before[s] == after[s],
+                                lambda: 'failed reload (%s): watcher %s was not edited but its pids changed %s -> %s'
+                                % (json.dumps(seq), s, before[s], after[s]),
+                                'arbiter.reload_from_config', case, fp='untouched-bad')
+                cfg = new
+                continue
             if last or judge_all:
                 shape = '>'.join(kinds)
                 desc = lambda: 'after edits %s (last: %s %s)' % (json.dumps(seq), kind, ed[1])    # noqa: E731
